@@ -431,7 +431,18 @@ fn files_for_invocation(invocation: &ToolInvocation) -> Result<Option<Vec<PathBu
         "write" => {
             let args: WriteArgs = serde_json::from_value(invocation.args.clone())
                 .map_err(|err| format!("checkpoint args invalid: {err}"))?;
-            Ok(Some(vec![PathBuf::from(args.path)]))
+            let path = PathBuf::from(args.path);
+            // same lexical rule as the write tool: a request it will refuse gets no checkpoint
+            if path.is_absolute() {
+                return Err("absolute paths are not allowed".to_string());
+            }
+            if path
+                .components()
+                .any(|c| matches!(c, std::path::Component::ParentDir))
+            {
+                return Err("path escapes workspace root".to_string());
+            }
+            Ok(Some(vec![path]))
         }
         "apply_patch" => {
             let args: ApplyPatchArgs = serde_json::from_value(invocation.args.clone())
